@@ -100,7 +100,10 @@ MonEvent(M, p, k) ==
          IF s.open THEN Fail(M, p, "open failure while the stream is open")
          \* with an own open outstanding the failure is taken as its answer (an open that arrives while an
          \* inbound substream is under validation is refused at once); the consent given by an Accept stays
-         ELSE [M EXCEPT !.ps[p].acc = IF s.ownopen THEN s.acc ELSE FALSE, !.ps[p].ownopen = FALSE, !.ps[p].nans = s.nans + 1, !.ps[p].want = FALSE]
+         \* (several open commands may be outstanding: as long as fewer answers than open commands were seen the
+         \*  failure may belong to one of them)
+         ELSE [M EXCEPT !.ps[p].acc = IF s.ownopen \/ s.nans < s.nop THEN s.acc ELSE FALSE, !.ps[p].ownopen = FALSE,
+                        !.ps[p].nans = s.nans + 1, !.ps[p].want = FALSE]
     [] k = "recv" ->
          IF ~s.open THEN Fail(M, p, "notification received outside an open stream") ELSE M
     [] OTHER -> M
